@@ -1,0 +1,69 @@
+//go:build verif
+
+package light
+
+import (
+	"context"
+	"fmt"
+	"time"
+
+	cmtdb "github.com/cometbft/cometbft-db"
+	cmtlight "github.com/cometbft/cometbft/light"
+	cmtlightprovider "github.com/cometbft/cometbft/light/provider"
+	cmtlightdb "github.com/cometbft/cometbft/light/store/db"
+	cmttypes "github.com/cometbft/cometbft/types"
+)
+
+// verifOfflineProvider is a CometBFT light block provider that never has
+// anything to offer.
+type verifOfflineProvider struct {
+	chainID string
+}
+
+func (p *verifOfflineProvider) ChainID() string { return p.chainID }
+
+func (p *verifOfflineProvider) LightBlock(context.Context, int64) (*cmttypes.LightBlock, error) {
+	return nil, cmtlightprovider.ErrLightBlockNotFound
+}
+
+func (p *verifOfflineProvider) LightBlockWithPeerID(context.Context, int64) (*cmttypes.LightBlock, string, error) {
+	return nil, "", cmtlightprovider.ErrLightBlockNotFound
+}
+
+func (p *verifOfflineProvider) MalevolentProvider(string) {}
+
+func (p *verifOfflineProvider) ReportEvidence(context.Context, cmttypes.Evidence) error {
+	return nil
+}
+
+// VerifNewClientWithTrustedLightBlocks creates a light client without any P2P
+// backing whose trusted store is an in-memory store preloaded with the given
+// light blocks (ascending heights, same chain). The last one is the trust
+// root, i.e. the latest trusted height; nothing else can ever be fetched.
+//
+// Verification-only: lets external harnesses drive code that needs a *Client.
+func VerifNewClientWithTrustedLightBlocks(lbs []*cmttypes.LightBlock) (*Client, error) {
+	if len(lbs) == 0 {
+		return nil, fmt.Errorf("no light blocks")
+	}
+	store := cmtlightdb.New(cmtdb.NewMemDB(), "")
+	for _, lb := range lbs {
+		if err := store.SaveLightBlock(lb); err != nil {
+			return nil, err
+		}
+	}
+	last := lbs[len(lbs)-1]
+	chainID := last.ChainID
+	lc, err := newLazyClient(
+		chainID,
+		cmtlight.TrustOptions{Period: 100 * 365 * 24 * time.Hour, Height: last.Height, Hash: last.Hash()},
+		&verifOfflineProvider{chainID},
+		[]cmtlightprovider.Provider{&verifOfflineProvider{chainID}},
+		store,
+		cmtlight.MaxRetryAttempts(1),
+	)
+	if err != nil {
+		return nil, err
+	}
+	return &Client{lightClient: lc}, nil
+}
